@@ -231,7 +231,10 @@ func (r *grammarOptimizer) optimizeRules(exprs []Expression) []Expression {
 func (r *grammarOptimizer) optimizeRule(expr Expression) Expression {
 	// Optimize RuleRefExpr
 	if ruleRef, ok := expr.(*RuleRefExpr); ok {
-		if _, ok := r.ruleUsesRules[ruleRef.Name.Val]; !ok {
+		// (a reference to an undefined rule is left alone, the generated
+		// parser reports it when it is reached)
+		_, defined := r.rules[ruleRef.Name.Val]
+		if _, ok := r.ruleUsesRules[ruleRef.Name.Val]; !ok && defined {
 			r.optimized = true
 			delete(r.ruleUsedByRules[ruleRef.Name.Val], r.rule)
 			if len(r.ruleUsedByRules[ruleRef.Name.Val]) == 0 {
